@@ -53,6 +53,17 @@ Ltac upd_cases x :=
       destruct (x =? k) eqn:E; [apply Nat.eqb_eq in E; subst|apply Nat.eqb_neq in E]
   end.
 
+(* like upd_cases, but keeps the name x when both sides are variables *)
+Ltac upd_keep x :=
+  unfold upd in *;
+  let E := fresh "Eu" in
+  match goal with
+  | [ |- context[x =? ?k]] =>
+      destruct (x =? k) eqn:E; [apply Nat.eqb_eq in E; first [subst k | subst x]|apply Nat.eqb_neq in E]
+  | [H : context[x =? ?k] |- _] =>
+      destruct (x =? k) eqn:E; [apply Nat.eqb_eq in E; first [subst k | subst x]|apply Nat.eqb_neq in E]
+  end.
+
 Lemma upd_same {A} (f : nat -> A) k v : upd f k v k = v.
 Proof. unfold upd. rewrite Nat.eqb_refl. reflexivity. Qed.
 Lemma upd_other {A} (f : nat -> A) k v x : x <> k -> upd f k v x = f x.
